@@ -64,6 +64,43 @@ def make_cases(ctx, n, profiles=('core', 'free'), docs=None, **kw):
     return cases
 
 
+def raw_cases(ctx, adocs, kinds=None):
+    """cases for the texts of gen.raw_variants derived from already rendered abstract documents; `adoc` holds only text, the source's
+    headers and the kind (no grid: nothing here is compared with a grid oracle)"""
+    cases = []
+    for d in adocs:
+        for kind, text in gen.raw_variants(ctx.rng, d):
+            if kinds is not None and kind not in kinds:
+                continue
+            c = Case({'text': text, 'headers': list(d['headers']), 'rows': [], 'kind': kind})
+            c.import_impl()
+            noise(ctx.rng, c.doc)
+            ctx.count('raw:' + kind)
+            cases.append(c)
+    return cases
+
+
+def raw_range_tie(ctx, cases, encs=('kern',), max_m=5, what='range export of a text outside the generator\'s grammar differs from the model'):
+    """correspondence only: every pair a <= b (and a few open / rejected pairs) of every imported raw case, impl vs model"""
+    live = [c for c in cases if c.doc is not None]
+    exps = []
+    for c in live:
+        M = min(len(c.doc.measure_start_tree_stages), max_m)
+        pairs = [(a, b) for a in range(1, M + 1) for b in range(a, M + 1)] + [(0, M), (None, M), (1, None), (M, None), (2, 1), (1, M + 9)]
+        c.raw_pairs = [(a, b, e) for e in encs for a, b in pairs]
+        exps.append([{'cats': ALLC, 'enc': e, 'from': a, 'to': b} for a, b, e in c.raw_pairs])
+    mresp = model_exports(ctx, live, exps)
+    for c, mr in zip(live, mresp):
+        if 'exports' not in mr:
+            ctx.check({'text': c.text, 'clause': 'raw import'}, {'ok': True}, mr['import'], None, nontrivial=False, what='import outcome differs from the model')
+            continue
+        for (a, b, e), model in zip(c.raw_pairs, mr['exports']):
+            got = dumps_public(c, {'from': a, 'to': b, 'enc': e})
+            ctx.count('raw_range:' + c.adoc['kind'])
+            ctx.check({'text': c.text, 'from_measure': a, 'to_measure': b, 'encoding': e, 'clause': 'raw text range (correspondence)'}, got, model, None,
+                      nontrivial=False, what=what)
+
+
 def noise(rng, doc):
     """a few read-only calls with arbitrary options before the calls a check looks at: on correct code they change nothing (C14), so every
     document-level check also sees the library after an arbitrary history of other calls (caches, shared option objects, module-level sets)"""
